@@ -109,6 +109,16 @@ func (ex *Exec) applyContract(st *State, ct *Contract, f *types.Func, recv Val, 
 		}
 	}
 	siteName := ex.site("call:" + shortName(ct.Key))
+	// a method of the repository with a pointer receiver dereferences it: the receiver must not be nil
+	if !ct.Extern && sig.Recv() != nil {
+		if r, ok := recv.(*RefV); ok {
+			g := Not(r.nilTerm())
+			if !g.IsTrue() {
+				ex.oblige(st, "nil-deref", siteName+"/receiver-non-nil", g, call)
+				st.assume(g)
+			}
+		}
+	}
 	pre := st.clone()
 	lets := map[string]*CExpr{}
 	for _, l := range ct.Lets {
